@@ -227,6 +227,9 @@ func (key *PublicKey) ECDSA() (*ecdsa.PublicKey, error) {
 		if key.KeyBlock.KeyFormatType == KeyFormatTypeTransparentECPublicKey {
 			tkey = mat.TransparentECPublicKey
 		}
+		if tkey == nil {
+			return nil, errors.New("Empty key material")
+		}
 		var curve elliptic.Curve
 		switch tkey.RecommendedCurve {
 		case RecommendedCurveP_224:
@@ -359,6 +362,9 @@ func (key *PrivateKey) RSA() (*rsa.PrivateKey, error) {
 		if !tkey.PublicExponent.IsInt64() {
 			return nil, errors.New("Public exponent is not an int64")
 		}
+		if tkey.P == nil || tkey.Q == nil {
+			return nil, errors.New("Missing prime factors")
+		}
 		//TODO: Check for other parameters nullity
 		rkey := &rsa.PrivateKey{
 			PublicKey: rsa.PublicKey{
@@ -420,6 +426,9 @@ func (key *PrivateKey) ECDSA() (*ecdsa.PrivateKey, error) {
 		// KMIP 1.3 unified all elliptic curve keys into a single type
 		if key.KeyBlock.KeyFormatType == KeyFormatTypeTransparentECPrivateKey {
 			tkey = mat.TransparentECPrivateKey
+		}
+		if tkey == nil {
+			return nil, errors.New("Empty key material")
 		}
 
 		var curve elliptic.Curve
@@ -519,7 +528,7 @@ func (kb *KeyBlock) TagDecodeTTLV(d *ttlv.Decoder, tag int) error {
 }
 
 func (kb *KeyBlock) GetMaterial() (KeyMaterial, error) {
-	if kb.KeyValue.Plain == nil {
+	if kb.KeyValue == nil || kb.KeyValue.Plain == nil {
 		return KeyMaterial{}, errors.New("Empty key value")
 	}
 	return kb.KeyValue.Plain.KeyMaterial, nil
@@ -537,7 +546,7 @@ func (kb *KeyBlock) GetBytes() ([]byte, error) {
 }
 
 func (kb *KeyBlock) GetAttributes() []Attribute {
-	if kb.KeyValue.Plain == nil {
+	if kb.KeyValue == nil || kb.KeyValue.Plain == nil {
 		return nil
 	}
 	return kb.KeyValue.Plain.Attribute
